@@ -20,7 +20,7 @@ type Head struct {
 const headRefPrefix = "ref: refs/heads/"
 
 var (
-	headRegexp     = regexp.MustCompile("ref: refs/heads/.+")
+	headRegexp     = regexp.MustCompile("(?s)ref: refs/heads/.+") // (?s): a branch name may contain line breaks
 	ErrInvalidHead = errors.New("error: invalid HEAD format")
 	ErrIOHandling  = errors.New("IO handling error")
 )
